@@ -125,7 +125,11 @@ func runC14(r *ev.Run) {
 				if err == nil && st2.HasAsk {
 					stop2 := make(chan struct{})
 					hw2 := c14Hammer(st2, stop2, &calls)
-					c11Run(r, st2, cg, caseID+"-ask", c11Cfg{askers: 8, perAsker: pick(r, 8, 20), serveLoops: 3, closeDst: true}, "C14", false)
+					per := pick(r, 8, 20)
+					if sf.Name == "quic(mem)" || sf.Name == "ssh" {
+						per = pick(r, 30, 60) // connection-oriented: many asks of one peer share a session
+					}
+					c11Run(r, st2, cg, caseID+"-ask", c11Cfg{askers: 8, perAsker: per, serveLoops: 3, closeDst: true}, "C14", false)
 					close(stop2)
 					hw2.Wait()
 					r.NonTrivial(sf.Name + "/ask+api")
@@ -244,7 +248,7 @@ func c14Kademlia(r *ev.Run, g *rng.R) {
 // concurrent use too.
 func c14ConcurrentWrongIdentity(r *ev.Run, g *rng.R) {
 	caseID := fmt.Sprintf("p2pke-wrong-identity-concurrent-%d", r.Batch)
-	if !r.Want(caseID) || r.Batch%2 != 0 {
+	if !r.Want(caseID) {
 		return
 	}
 	st := buildP2PKEMem(stackOpts{n: 4})
@@ -279,7 +283,7 @@ func c14ConcurrentWrongIdentity(r *ev.Run, g *rng.R) {
 		wg.Add(1)
 		go func() {
 			defer wg.Done()
-			for k := 0; k < pick(r, 30, 150); k++ {
+			for k := 0; k < pick(r, 120, 400); k++ {
 				s, x, y := lg.Intn(n), lg.Intn(n), lg.Intn(n)
 				if x == y || s == y {
 					continue
